@@ -333,7 +333,7 @@ def gen_ec(rng, nmax=12):
 DEAD_KINDS = ["sink", "p2trap", "rewloop", "deadp1", "deadchain"]
 
 
-def gen_dead(rng, kind, pattern, ctx=None):
+def gen_dead(rng, kind, pattern, ctx=None, zero_prob=False):
     """State under test X of `kind` (P1 or PR) with len(pattern) transitions; pattern[i] True = live target.
     Dead targets are of several sorts (absorbing sink, Player-2 trap, rewarded dead loop that leaks to a sink,
     dead Player-1 state, dead chain); live targets are sub-games with distinct positive values.
@@ -400,6 +400,12 @@ def gen_dead(rng, kind, pattern, ctx=None):
         targets.append(t)
     if kind == PR:
         probs = rand_dist(rng, L)
+        if zero_prob and any(not x for x in pattern) and any(pattern):
+            # one dead branch is listed with probability 0 (the others still sum to 1): a legal, degenerate way to write the state
+            di = rng.choice([i for i, x in enumerate(pattern) if not x])
+            rest = rand_dist(rng, L - 1) if L > 1 else []
+            it = iter(rest)
+            probs = [F(0) if i == di else next(it) for i in range(L)]
         tl[X] = list(zip(probs, targets))
     else:
         tl[X] = list(zip(LABELS[:L], targets))
@@ -635,9 +641,12 @@ def gen_tiny_branch(rng, nmax=9):
             d = len(players)
             players.append(PR); rewards.append(F(rng.randint(1, 9))); tl.append([(F(1, 2), z), (F(1, 2), d)])
             t2 = len(players)
-            opts = [("a", t), ("b", z), ("c", d)][:rng.randint(2, 3)]
+            trap = len(players) + 1          # dead Player-2 state that keeps its transitions and is worth a lot
+            opts = [("a", t), ("b", z), ("c", d), ("e", trap)]
+            opts = [opts[0]] + rng.sample(opts[1:], rng.randint(1, 3))
             rng.shuffle(opts)
             players.append(P1); rewards.append(F(rng.randint(0, 9))); tl.append(opts)
+            players.append(P2); rewards.append(F(rng.randint(30, 90))); tl.append([("u", f), ("w", z)])
             t = t2
         if players[s] == PR:
             share = rng.choice([F(1, 2), F(1, 4), F(1, 10)])
